@@ -281,14 +281,13 @@ Definition mon_C06_unit (x o : sx) : sx :=
   else v_ok.
 
 (* ---- C07 (unit): decode (encode m) = m ---- *)
-Definition hdrs_single (h : hdrs) : bool := forallb (fun kv => Nat.eqb (length (snd kv)) 1) h.
+
 Definition has_any (s bad : str) : bool := existsb (fun c => mem_byte c bad) s.
 Definition meta_delims : str := [124; 91; 93; 123; 125]%N.   (* | [ ] { } *)
 
-(* region of F6: a header with several values, or delimiter bytes where the decoder looks *)
+(* region of F6: delimiter bytes where the decoder looks (several values per name are kept since fix F6-multi-valued) *)
 Definition kf_C07 (m : meta) : string :=
-  if negb (hdrs_single (m_reqh m)) || negb (hdrs_single (m_resph m)) then "F6-multi-valued"
-  else if has_any (m_host m) [124%N] || has_any (m_path m) [124%N] || has_any (m_redirect m) [124%N]
+  if has_any (m_host m) [124%N] || has_any (m_path m) [124%N] || has_any (m_redirect m) [124%N]
           || existsb (fun kv => has_any (fst kv) (58%N :: meta_delims) || existsb (fun v => has_any v meta_delims) (snd kv)) (m_reqh m ++ m_resph m)
   then "F6-delimiters" else "".
 
